@@ -1,0 +1,86 @@
+//go:build verif
+
+package mempool
+
+import (
+	"github.com/33cn/chain33/common/listmap"
+	"github.com/33cn/chain33/types"
+)
+
+// Verification accessors (build tag `verif` only; add-only file, no behaviour change).
+// VerifDump returns a read-only snapshot of every bookkeeping structure of the pool,
+// taken under the pool lock: arrival queue, per-sender index, latest-tx list,
+// short-hash index, byte counter and fee total.
+
+// VerifItem is one queue entry.
+type VerifItem struct {
+	Tx    *types.Transaction
+	Enter int64
+}
+
+// VerifSHash is one entry of the short-hash index; KeyOK tells whether a lookup with the
+// short hash of Tx's own hash returns this very entry.
+type VerifSHash struct {
+	Tx    *types.Transaction
+	KeyOK bool
+}
+
+// VerifState is the snapshot.
+type VerifState struct {
+	Queue    []VerifItem
+	QueueLen int // SimpleQueue.Size()
+	Bytes    int64
+	Fee      int64
+	Acc      map[string][]*types.Transaction
+	AccLen   map[string]int // ListMap.Size() per sender
+	Last     []*types.Transaction
+	LastLen  int
+	SHash    []VerifSHash
+	SHashLen int
+	Height   int64
+	BlkTime  int64
+	HasHdr   bool
+}
+
+func verifWalkTxs(l *listmap.ListMap) (txs []*types.Transaction) {
+	l.Walk(func(v interface{}) bool {
+		txs = append(txs, v.(*types.Transaction))
+		return true
+	})
+	return txs
+}
+
+// VerifDump snapshots the pool.
+func (mem *Mempool) VerifDump() *VerifState {
+	mem.proxyMtx.Lock()
+	defer mem.proxyMtx.Unlock()
+	st := &VerifState{Acc: map[string][]*types.Transaction{}, AccLen: map[string]int{}}
+	c := mem.cache
+	c.qcache.Walk(0, func(it *Item) bool {
+		st.Queue = append(st.Queue, VerifItem{Tx: it.Value, Enter: it.EnterTime})
+		return true
+	})
+	st.QueueLen = c.qcache.Size()
+	st.Bytes = c.qcache.GetCacheBytes()
+	st.Fee = c.totalFee
+	for addr, lm := range c.AccountTxIndex.accMap {
+		st.Acc[addr] = verifWalkTxs(lm)
+		st.AccLen[addr] = lm.Size()
+	}
+	st.Last = verifWalkTxs(c.LastTxCache.l)
+	st.LastLen = c.LastTxCache.l.Size()
+	for _, tx := range verifWalkTxs(c.SHashTxCache.l) {
+		got, err := c.SHashTxCache.l.GetItem(types.CalcTxShortHash(tx.Hash()))
+		st.SHash = append(st.SHash, VerifSHash{Tx: tx, KeyOK: err == nil && got.(*types.Transaction) == tx})
+	}
+	st.SHashLen = c.SHashTxCache.l.Size()
+	if mem.header != nil {
+		st.HasHdr = true
+		st.Height = mem.header.Height
+		st.BlkTime = mem.header.BlockTime
+	}
+	return st
+}
+
+// VerifRemoveExpired runs the periodic expiry sweep (removeBlockedTxs ticker body) once.
+func (mem *Mempool) VerifRemoveExpired() { mem.removeExpired() }
